@@ -4,7 +4,8 @@ C17 — property theorems: MDO formulations are equivalent views of the same pro
 Only property theorems (and the few definitions needed to state them) live here; helper lemmas are
 in `Lemmas/C17.lean` (index arithmetic), `Lemmas/C17Form.lean` (formulation-level functions),
 `Lemmas/C17Par.lean` (parallel IDF, equilibrium start, heap of returned arrays),
-`Lemmas/C17Buf.lean` (the adapter's array filled block by block, sparse blocks, dtype of the design vector) and
+`Lemmas/C17Buf.lean` (the adapter's array filled block by block, sparse blocks, dtype of the design vector),
+`Lemmas/C17Sess.lean` (function objects of several formulations alive in one process) and
 `Lemmas/C17Alg.lean` (matrix algebra).
 
 A design vector laid out along `names` is written `cat names pt`: the concatenation of the named
@@ -15,6 +16,7 @@ the statement is about bookkeeping, and arbitrary coupled systems where it is ab
 import GemseoVerif.Lemmas.C17Form
 import GemseoVerif.Lemmas.C17Par
 import GemseoVerif.Lemmas.C17Buf
+import GemseoVerif.Lemmas.C17Sess
 import GemseoVerif.Lemmas.C17Alg
 
 namespace GV.C17
@@ -690,5 +692,50 @@ example : typedVector [false, true] DType.float true [1/2, 5/2] = [1/2, 2] := by
 -- ... and what a cast of the returned Jacobian to the dtype of an integer design vector would expose
 example : jacAstypeVariant DType.int [[69/25, 167/20, -3/2]] = [[2, 8, -1]] ∧
     jacAstypeVariant DType.float [[69/25, 167/20, -3/2]] = [[69/25, 167/20, -3/2]] := by decide +kernel
+
+/-! ## Several formulations alive in one process -/
+
+/-- **Formulations alive together do not interfere.**  For any family of function objects (of any number of
+    formulations, each object holding the sizes, the design-space names of ITS formulation and its adapter's
+    input names), starting from a process in which no mask has been computed, and for any interleaved history
+    of evaluations `(object, design vector)`: every call returns the value the object returns when it is used
+    alone (`FObj.pure`: the mask of the object's own design space), whichever object was evaluated first and
+    whatever was evaluated in between.  (Invariant `MemoOk`: every mask kept so far is the mask of the object that
+    keeps it.) -/
+theorem formulations_alive_together_do_not_interfere (objs : Nat → FObj) (hist : List (Nat × Vec)) :
+    lazyRun objs (fun _ => none) hist = hist.map (fun p => (objs p.1).pure p.2) :=
+  lazyRun_eq objs _ (MemoOk.empty objs) hist
+
+/-- The same with the objects given as `FunctionFromDiscipline` definitions (`gEval`): in any session, the
+    `k`-th call returns `gEval` of its own formulation's design space at its own design vector — the values
+    of the other sections (IDF functions, consistency constraints, parallel IDF) are therefore those of the
+    formulation built and used alone, in whatever order the formulations are built and evaluated. -/
+theorem formulation_values_independent_of_session
+    (sizes : Nat → Sizes) (names : Nat → List String) (hasInput : Nat → String → Bool)
+    (run : Nat → Data → String → Vec) (outs : Nat → List String) (hist : List (Nat × Vec)) :
+    lazyRun (fun i => FObj.ofDisc (sizes i) (names i) (hasInput i) (run i) (outs i)) (fun _ => none) hist
+      = hist.map (fun p => gEval (sizes p.1) (names p.1) (hasInput p.1) (run p.1) (outs p.1) p.2) := by
+  rw [formulations_alive_together_do_not_interfere]
+  simp only [FObj.pure_ofDisc]
+
+-- non-vacuity: the constraint g = x + 3 z - 1 of a discipline reading (x, z), as a function of MDF (design
+-- space x, z) and of IDF (design space x, y1, y2, z), both built from the design space (x, y1, y2, z)
+def exG : Data → Vec := fun d => [(d.get "x").headD 0 + 3 * (d.get "z").headD 0 - 1]
+def exObjs : Nat → FObj := fun i =>
+  if i = 0 then ⟨[("x", 1), ("y1", 1), ("y2", 1), ("z", 1)], ["x", "z"], ["x", "z"], exG⟩
+  else ⟨[("x", 1), ("y1", 1), ("y2", 1), ("z", 1)], ["x", "y1", "y2", "z"], ["x", "z"], exG⟩
+
+example : (exObjs 0).mask = some [0, 1] ∧ (exObjs 1).mask = some [0, 3] := by decide +kernel
+-- MDF first then IDF, IDF first then MDF, interleaved: g = -21/5 at (x, z) = (7/10, -13/10) every time
+example : lazyRun exObjs (fun _ => none) [(0, [7/10, -13/10]), (1, [7/10, 5, 6, -13/10])]
+    = [some [-21/5], some [-21/5]] := by decide +kernel
+example : lazyRun exObjs (fun _ => none) [(1, [7/10, 5, 6, -13/10]), (0, [7/10, -13/10]), (1, [1, 5, 6, 0])]
+    = [some [-21/5], some [-21/5], some [0]] := by decide +kernel
+-- ... and what the theorem excludes: one table of masks shared by the objects and keyed by (input names, sizes)
+-- gives IDF the mask of MDF (g computed from (x, y1)), or MDF the mask of IDF (index out of range)
+example : sharedRun exObjs [] [(0, [7/10, -13/10]), (1, [7/10, 5, 6, -13/10])]
+    = [some [-21/5], some [147/10]] := by decide +kernel
+example : sharedRun exObjs [] [(1, [7/10, 5, 6, -13/10]), (0, [7/10, -13/10])]
+    = [some [-21/5], none] := by decide +kernel
 
 end GV.C17
